@@ -29,6 +29,7 @@ fn data_code(d: &Data) -> String {
         Data::Int(7) => "d:I7".into(),
         Data::Float(f) if *f == 1.5 => "d:F1.5".into(),
         Data::String(s) if s == "x" => "d:Sx".into(),
+        Data::String(s) if s.is_empty() => "d:S0".into(),
         Data::Bool(true) => "d:B1".into(),
         o => format!("d:?{:?}", o),
     }
@@ -124,6 +125,7 @@ struct RecAB {
 fn code_data(c: &str) -> Data {
     match c {
         "E" => Data::Empty,
+        "S0" => Data::String(String::new()),
         "Sx" => Data::String("x".into()),
         "S12" => Data::String("12".into()),
         "Spad" => Data::String(" a ".into()),
@@ -379,12 +381,12 @@ pub fn drive(args: &Args) -> i32 {
     let ok = |t: &str| -> Vec<&'static str> {
         let base = t.trim_start_matches("Opt");
         let mut v: Vec<&'static str> = match base {
-            "String" => vec!["E", "Sx", "S12", "Spad"],
+            "String" => vec!["E", "S0", "Sx", "S12", "Spad"],
             "f64" => vec!["I7", "F1.5", "F2", "S12", "S1.5", "Sx"],
             "i64" => vec!["I7", "F2", "F1.5", "S12", "Sx"],
             "bool" => vec!["B1", "B0", "STRUE", "Sfalse", "Strue", "STrue", "SFALSE", "SFalse", "E", "Sx"],
             "I64OrNone" | "F64OrNone" => vec!["E", "I7", "F2", "F1.5", "S12", "S1.5", "Sx", "B1", "B0", "STRUE"],
-            _ => vec!["E", "I7", "F1.5", "Sx", "B1"],
+            _ => vec!["E", "S0", "I7", "F1.5", "Sx", "B1"],
         };
         if t.starts_with("Opt") {
             v.push("E");
